@@ -561,9 +561,10 @@ def reverse_axis(x, axis):
 def grad_np_cumsum(ans, x, axis=None):
     def vjp(g):
         if axis:
-            return reverse_axis(anp.cumsum(reverse_axis(g, axis), axis), axis)
+            g_cumsum = reverse_axis(anp.cumsum(reverse_axis(g, axis), axis), axis)
         else:
-            return anp.reshape(anp.cumsum(g[::-1], axis)[::-1], x.shape)
+            g_cumsum = anp.cumsum(g[::-1], axis)[::-1]
+        return anp.reshape(g_cumsum, anp.shape(x))
 
     return vjp
 
